@@ -459,6 +459,38 @@ def exc_sig(e):
     return type(e).__name__, msg[:40]
 
 
+def _role_object(obj, role):
+    g = getattr
+    try:
+        if role == "":
+            return obj
+        if role in ("p1", "p2"):
+            return g(obj, "panels")[int(role[1]) - 1]
+        if role == "an":
+            return g(obj, "analysis")
+        st = g(obj, "stiffeners")[0]
+        return st if role == "s" else g(st, role)
+    except Exception:
+        return None
+
+
+def attr_digest(obj, role, name):
+    """bit-level digest of the value a derived attribute holds right now"""
+    o = _role_object(obj, role)
+    if o is None:
+        return "no-object"
+    try:
+        v = getattr(o, name)
+    except AttributeError:
+        return "missing"
+    try:
+        if hasattr(v, "ABD") and hasattr(v, "plies"):          # Laminate: what later calls consume of it
+            return digest([v.ABD, float(v.t), float(getattr(v, "offset", 0.) or 0.)])
+        return digest(v)
+    except Exception:
+        return "type:" + type(v).__name__
+
+
 class Lab:
     """one object of a kind with the bookkeeping needed to call its methods observably"""
 
@@ -641,6 +673,7 @@ def worker_lifecycle(job, f):
         for j, (m, rep) in enumerate(path):
             _emit(f, dict(t="call", i=i, j=j, m=m))
             r = lab.call(m)
+            r["vals"] = [[ro, nm, attr_digest(lab.obj, ro, nm)] for ro, nm in job.get("attrs", [])]
             ref = refs.get(m)
             r["rep"] = bool(rep)
             r["eqRef"] = bool(r["out"] == "ok" and ref is not None and ref["out"] == "ok" and r["h"] == ref["h"])
@@ -790,7 +823,7 @@ def _run_worker(job, tag, scratch, timeout=1800):
     return recs, finished, (p.stderr or "")[-1500:], p.returncode
 
 
-def replay_paths(kind, paths, refs, build, scratch, tag, mutant=None, record=True, refvals=None):
+def replay_paths(kind, paths, refs, build, scratch, tag, mutant=None, record=True, refvals=None, attrs=None):
     """paths: list of lists of (method, rep).  Runs them in worker processes (restarting after a crash of
     the interpreter, which is recorded as the outcome of the call in progress).
     -> (list of step lists per path, ref results, problems)"""
@@ -807,7 +840,7 @@ def replay_paths(kind, paths, refs, build, scratch, tag, mutant=None, record=Tru
             problems.append("too many worker restarts for kind %s" % kind)
             break
         job = dict(type="lifecycle", kind=kind, refs=refs, refvals=refvals, paths=todo, build=build,
-                   mutant=mutant, record=record)
+                   mutant=mutant, record=record, attrs=attrs or [])
         recs, finished, err, rc = _run_worker(job, "%s-r%d" % (tag, rounds), scratch)
         cur = None
         incall = None
@@ -839,7 +872,7 @@ def replay_paths(kind, paths, refs, build, scratch, tag, mutant=None, record=Tru
         prev = results[i][-1] if results[i] else None
         rep = bool(paths[i][j][1])
         results[i].append(dict(m=m, out="exc", h="", etype="crash", emsg="worker process died", args_same=True,
-                               eig=None, writes=[], rbw=[], rep=rep, eqRef=False,
+                               eig=None, writes=[], rbw=[], vals=[], rep=rep, eqRef=False,
                                eqPrev=bool(rep and prev is not None and prev["out"] == "exc" and prev["etype"] == "crash")))
         if not rep and j + 1 < len(paths[i]) and paths[i][j + 1][0] == m and paths[i][j + 1][1]:
             # the repetition of a call that kills the interpreter is not attempted again in a new process
@@ -867,6 +900,14 @@ class Graph:
         self.touches = touches
         self.init = init
         self.edges = {}          # (node, m) -> (dst, out, attr, explains)
+
+    def status_attrs(self):
+        out = set()
+        for (u, m), e in self.edges.items():
+            for node in (u, e[0]):
+                out.update(node[0])
+                out.update(node[1])
+        return out
 
     def shortest(self):
         sp = {self.init: []}
@@ -1011,6 +1052,7 @@ def make_event(eid, kind, mode, steps, keep, refvals=None):
             eqRef=bool(r["eqRef"]), eqPrev=bool(r["eqPrev"]), argsSame=bool(r["args_same"]),
             rbw=[list(a) for a in r["rbw"] if tuple(a) in keep],
             writes=[list(a) for a in r["writes"]],
+            vals=[[ro, nm, bool(fl)] for ro, nm, fl in r.get("valflags", [])],
             eig=_dy(eig) if use else []))
     return ev
 
@@ -1075,9 +1117,10 @@ def replay_kind(kind, g, paths, build, scratch, nproc, mutant=None, record=True)
 
     def one(i):
         return replay_paths(kind, [doubled(p) for p in parts[i]], refs, build, scratch,
-                            "%s-%d" % (kind, i), mutant=mutant, record=record, refvals=refvals)
+                            "%s-%d" % (kind, i), mutant=mutant, record=record, refvals=refvals,
+                            attrs=sorted(g.status_attrs()))
 
-    out = []
+    done = {}
     with cf.ThreadPoolExecutor(max_workers=len(parts)) as ex:
         for i, (res, rv, pr) in enumerate(ex.map(one, range(len(parts)))):
             problems += pr
@@ -1085,8 +1128,33 @@ def replay_kind(kind, g, paths, build, scratch, nproc, mutant=None, record=True)
                 if steps is None:
                     problems.append("path %s of kind %s was not replayed" % (p, kind))
                 else:
-                    out.append((p, steps))
+                    done[tuple(p)] = steps
+    out = [(list(p), done[tuple(p)]) for p in paths if tuple(p) in done]      # plan order (shortest paths first)
+    mark_values(g, out)
     return out, refvals, problems
+
+
+def mark_values(g, replays):
+    """Def = 'holds the value the definition determines': one value per (kind, attribute).  The canonical
+    value of an attribute is the one it holds the first time (plan order: shortest call sequences first,
+    i.e. first calls on fresh objects) the specification says it is Def; every step gets, per attribute,
+    the flag 'holds the canonical value'.  Trace_Lifecycle demands the flag wherever its state says Def."""
+    canon, origin = {}, {}
+    for path, steps in replays:
+        nodes = g.walk(path)
+        for j, st in enumerate(steps):
+            node = nodes[j // 2 + 1] if nodes is not None and j // 2 + 1 < len(nodes) else None
+            if node is None or st["out"] == "exc" and st["etype"] == "crash":
+                continue
+            isdef = set(node[0])
+            for ro, nm, dg in st.get("vals", []):
+                if (ro, nm) in isdef and (ro, nm) not in canon:
+                    canon[(ro, nm)] = dg
+                    origin[(ro, nm)] = path[:j // 2 + 1]
+    for path, steps in replays:
+        for st in steps:
+            st["valflags"] = [[ro, nm, canon.get((ro, nm), dg) == dg] for ro, nm, dg in st.get("vals", [])]
+    g.canon_origin = {"%s.%s" % k if k[0] else k[1]: v for k, v in origin.items()}
 
 
 def tlc_cfg(kinds, maxlen, devs="all", invariants=True):
@@ -1132,6 +1200,10 @@ def report_verdicts(rep, verdicts, events, info, drift_kinds):
                         ("%s: %s" % (st["etype"], st["emsg"])) if st["out"] == "exc" else "a result different from the freshly defined object",
                         d["spec"][0], ".".join(x for x in d["spec"][1] if x)))
             elif d["v"] == "fail":
+                if isinstance(d["why"], list):      # <<text, set of attributes>>
+                    d = dict(d, why="%s: after this call %s holds another value than the first time a call on a fresh "
+                                    "object derives it, so later calls that consume it differ from a fresh object"
+                                    % (d["why"][0], ", ".join(".".join(x for x in a if x) for a in d["why"][1])))
                 rep.violation("%s after %s on kind %s: %s (observed %s; specification expects %s%s)" % (
                     d["m"], path[:pos // 2], kind, d["why"],
                     ("%s: %s" % (st["etype"], st["emsg"])) if st["out"] == "exc"
